@@ -683,7 +683,7 @@ func buildPool(baseSeed uint64, nGen int, corpusDir string) []*PoolProg {
 
 // computeRefs runs K fresh processes per program and variant; returns an I2 violation if two
 // fresh processes disagree.
-func (c *simCtx) computeRefs(pool []*PoolProg, variants []string, K int, baseSeed uint64, par int) (*Violation, []*RunSpec, []*RunResult) {
+func (c *simCtx) computeRefs(pool []*PoolProg, variants []string, K int, baseSeed uint64, par int) ([]*Violation, [][]*RunSpec) {
 	type job struct {
 		pi int
 		v  string
@@ -732,6 +732,12 @@ func (c *simCtx) computeRefs(pool []*PoolProg, variants []string, K int, baseSee
 			bmu.Unlock()
 		}
 	})
+	type i2 struct {
+		v    *Violation
+		pair []*RunSpec
+	}
+	var found []i2
+	bad := map[string]bool{}
 	for i, jb := range jobs {
 		pp := pool[jb.pi]
 		pp.RefSpecs[jb.v] = append(pp.RefSpecs[jb.v], specs[i])
@@ -740,19 +746,37 @@ func (c *simCtx) computeRefs(pool []*PoolProg, variants []string, K int, baseSee
 			pp.Ref[jb.v] = &o
 			continue
 		}
+		if bad[jb.v+pp.Key] {
+			continue
+		}
 		first := pp.Ref[jb.v]
 		o := outs[i]
 		o.ExitCode = 0
 		a, b := *first, o
 		a.ExitCode = 0
 		if a != b {
+			bad[jb.v+pp.Key] = true
 			v := &Violation{Property: "C10", Class: "I2-fresh-processes-disagree", Op: -1, ProgKey: pp.Key,
 				Detail:   fmt.Sprintf("two fresh %s processes given the same source (%s) disagree; they differ only in entropy seed, clock epoch, environment and destination name", jb.v, pp.P.Name),
 				Expected: first.String(), Observed: o.String()}
-			return v, []*RunSpec{pp.RefSpecs[jb.v][0], specs[i]}, []*RunResult{nil, ress[i]}
+			found = append(found, i2{v, []*RunSpec{pp.RefSpecs[jb.v][0], specs[i]}})
 		}
 	}
-	return nil, nil, nil
+	// a program whose fresh processes disagree has no reference: leave it out of the pools
+	for _, pp := range pool {
+		for _, vn := range variants {
+			if bad[vn+pp.Key] {
+				pp.Ref[vn] = nil
+			}
+		}
+	}
+	var vs []*Violation
+	var pairs [][]*RunSpec
+	for _, f := range found {
+		vs = append(vs, f.v)
+		pairs = append(pairs, f.pair)
+	}
+	return vs, pairs
 }
 
 // runSpecKeep is runSpec with a hook that runs before the run directory is removed.
